@@ -182,6 +182,8 @@ func TestVerifDriver(t *testing.T) {
 								cfg.Plugins.Chain = append(cfg.Plugins.Chain, config.PluginConfig{Name: "custom-auth", Config: map[string]interface{}{"apiKey": "k1"}})
 							case "sl":
 								cfg.Plugins.Chain = append(cfg.Plugins.Chain, config.PluginConfig{Name: "size_limit", Config: map[string]interface{}{"max_request_body": 10}})
+							case "rid":
+								cfg.Plugins.Chain = append(cfg.Plugins.Chain, config.PluginConfig{Name: "request-id"})
 							}
 						}
 					}
